@@ -404,6 +404,15 @@ def sceKeKs (f k0 : α) (e0 eps A2 : Cx α) : α × α :=
   let ke := 2.0 * k0 * (csq Eeff).im
   (ke, ke - 2.0 * k0 * (csq Eeff0).im)
 
+/-- `compute_A2_local(Q, microstructure)` (the short-range second-order term of the strong-contrast expansions): `p = 12`, `n = 2^12`
+    samples of `r·acf(r)` on `[0, 8·inv_slope_at_origin]`, Romberg, then `A2 = 2 Q² (∫ + i/(4π)·ft(0)·Q)`; `g i` is the autocorrelation
+    function at the `i`-th grid point `i·(maxr/n)` (`np.linspace(0, maxr, n + 1)`), `Q` may be complex -/
+def sceA2Local (pi : α) (g : Nat → α) (ft0 invSlope : α) (Q : Cx α) : Cx α :=
+  let maxr : α := 8.0 * invSlope
+  let step : α := maxr / ((4096 : Nat) : α)
+  let integrale1 : α := romb 12 (fun i => ((i : α) * step) * g i) step
+  Cx.smul 2.0 (Q * Q) * (⟨integrale1, 0⟩ + Cx.smul ft0 (⟨0, 1.0 / (4.0 * pi)⟩ * Q))
+
 /-- is `x == 0` -/
 def isZero (x : α) : Bool := !(decide (x < 0)) && !(decide (0 < x))
 
